@@ -450,8 +450,8 @@ fn wrap_images_of(stride: usize, dim: usize, full: bool) -> Vec<usize> {
 /// class (15): huge coordinates / positions / index-list entries / range ends.  Every failing call is directly followed by a
 /// valid one on the same array.
 fn gen_wrap(thorough: bool, out: &mut dyn FnMut(String)) {
-    let mut sh = shapes(2, 3, 1, 3);
-    sh.extend(vec![vec![5], vec![2, 4], vec![4, 2], vec![3, 5], vec![7, 2], vec![2, 7], vec![2, 3, 4], vec![4, 3, 2], vec![5, 3, 2], vec![2, 2, 2, 2], vec![2, 3, 5, 7], vec![1, 4], vec![4, 1],
+    let mut sh = if thorough { shapes(2, 3, 1, 3) } else { shapes(2, 2, 1, 3) };
+    sh.extend(vec![vec![3, 3, 3], vec![2, 3, 2], vec![3, 1, 2], vec![1, 3, 3], vec![5], vec![2, 4], vec![4, 2], vec![3, 5], vec![7, 2], vec![2, 7], vec![2, 3, 4], vec![4, 3, 2], vec![5, 3, 2], vec![2, 2, 2, 2], vec![2, 3, 5, 7], vec![1, 4], vec![4, 1],
                   vec![2, 1, 4], vec![2, 1, 2, 1, 2], vec![3, 256], vec![256, 3], vec![300, 2], vec![2, 300], vec![16, 16, 16], vec![2, 70000], vec![65537, 2], vec![2, 65536], vec![3, 4096, 16],
                   vec![6, 10], vec![10, 6], vec![2, 12, 5], vec![2, 2, 2, 2, 2, 2, 2, 2], vec![0, 4], vec![4, 0], vec![2, 0, 3], vec![3, 3, 3, 3, 3]]);
     if thorough { sh.extend(shapes(4, 4, 1, 3)); sh.extend(vec![vec![2, 3, 2, 3, 2, 3], vec![7, 11, 13], vec![1 << 10, 1 << 10]]); }
@@ -502,14 +502,16 @@ fn gen_wrap(thorough: bool, out: &mut dyn FnMut(String)) {
         if n > 1 { for j in [1u128, 2, n as u128 - 1] { pos.push((j * TWO64 + n as u128 - 1) / n as u128); pos.push((j * TWO64 + n as u128 - 1) / n as u128 + 1); } }
         for &d in s.iter() { if d > 1 { pos.push(TWO64 / d as u128); pos.push(TWO64 / d as u128 + 1); } }
         pos.retain(|&p| p < TWO64); pos.sort(); pos.dedup();
-        for p in pos {
+        for (j, p) in pos.into_iter().enumerate() {
             out(format!("index_to_coord {a} {p}")); out(format!("index_to_coord {a} {}", n.saturating_sub(1)));
-            out(format!("op_index {a} {p}")); out(format!("op_index {a} {}", n.saturating_sub(1)));
+            // (the model walks the whole element list to refuse a far position: a third of them on long arrays)
+            if n <= 5000 || j % 3 == 0 { out(format!("op_index {a} {p}")); out(format!("op_index {a} {}", n.saturating_sub(1))); }
         }
         // index lists (stride of the first axis = the row size) and ranges
         if n <= 5000 {
             let d0 = s[0];
             let row = if d0 == 0 { 0 } else { n / d0 };
+            if d0 <= 64 {
             // (the model of `indices_at` and its cross-check with the C11 model are quadratic: the short image list unless thorough)
             let mut imgs = wrap_images_of(row.max(1), d0, thorough || n <= 30);
             if r == 1 { imgs.extend(wrap_images_of(2, n, thorough)); imgs.sort(); imgs.dedup(); }
@@ -517,7 +519,7 @@ fn gen_wrap(thorough: bool, out: &mut dyn FnMut(String)) {
                 out(format!("indices_at {a} {img}"));
                 if j % 2 == 0 { out(format!("indices_at {a} 0,{img}")); } else { out(format!("indices_at {a} {img},{}", d0.saturating_sub(1))); }
                 if j % 4 == 0 { out(format!("indices_at {a} {}", d0.saturating_sub(1))); }
-            }
+            } }
             let m = usize::MAX;
             for (x, y) in [(0, m), (m, m), (m, 0), (1 << 63, (1 << 63) + 1), (1, m), (m - 1, m), (0, 1 << 63), (0, (1 << 32) + 1), ((1 << 32) + 1, (1 << 32) + 2), (m - n, m), (0, (m - n).saturating_add(1))] {
                 out(format!("slice {a} {x} {y}")); out(format!("slice {a} 0 1"));
@@ -1021,7 +1023,17 @@ fn aba_step(op: &str, args: &[&str], a: &Rc<Array<i64>>, c: &Call, base: &Out<An
     aba
 }
 
+/// `C02_SLOW=<ms>`: report every case that takes longer (stderr) — the per-case watchdog needs a wide margin
 fn exec(op: &str, args: &[&str], expected: &str) -> Option<Verdict> {
+    static SLOW: std::sync::OnceLock<Option<u128>> = std::sync::OnceLock::new();
+    let slow = *SLOW.get_or_init(|| std::env::var("C02_SLOW").ok().and_then(|v| v.parse().ok()));
+    let t0 = std::time::Instant::now();
+    let v = exec_case(op, args, expected);
+    if let Some(ms) = slow { let dt = t0.elapsed().as_millis(); if dt > ms { eprintln!("slow case {dt} ms: {op} {}", truncate(&args.join(" "), 120)); } }
+    v
+}
+
+fn exec_case(op: &str, args: &[&str], expected: &str) -> Option<Verdict> {
     if op == "oracle_validations" {
         if expected != "native" { return None; }
         let (v, j, k) = (VALIDATED.load(AtOrd::Relaxed), NATIVE_JUDGED.load(AtOrd::Relaxed), SOAKED.load(AtOrd::Relaxed));
@@ -1066,14 +1078,15 @@ fn exec(op: &str, args: &[&str], expected: &str) -> Option<Verdict> {
     // Arrays of up to 300 elements: every type on both receivers; larger ones: i64 / u8 on both, i8 / bool / f64 / 12- and 3-byte tuples plain.
     let small = a.len().unwrap() <= 300;
     // the 32-byte non-`Copy` tuple (a String inside: the most expensive image to build): every 4th case
-    let every4 = CASE_NO.fetch_add(1, AtOrd::Relaxed) % 4 == 0;
+    // the 12- and the 3-byte tuple alternate
+    let case_no = CASE_NO.fetch_add(1, AtOrd::Relaxed);
+    let every4 = case_no % 4 == 3;
     let d = aba.or(oracle_div).or_else(|| variant::<i64>(key, &c, &base, true, true))
         .or_else(|| variant::<u8>(key, &c, &base, true, true))
         .or_else(|| variant::<f64>(key, &c, &base, true, small))
         .or_else(|| variant::<i8>(key, &c, &base, true, small))
         .or_else(|| variant::<bool>(key, &c, &base, true, small))
-        .or_else(|| variant::<T3>(key, &c, &base, true, false))
-        .or_else(|| variant::<T3b>(key, &c, &base, true, false))
+        .or_else(|| if case_no % 2 == 0 { variant::<T3>(key, &c, &base, true, small && case_no % 8 == 0) } else { variant::<T3b>(key, &c, &base, true, small && case_no % 8 == 1) })
         .or_else(|| if small { variant::<u16>(key, &c, &base, true, true) } else { None })
         .or_else(|| if small { variant::<i32>(key, &c, &base, true, true) } else { None })
         .or_else(|| if small { variant::<f32>(key, &c, &base, true, true) } else { None })
@@ -1093,6 +1106,6 @@ fn nontrivial(op: &str, args: &[&str]) -> bool {
 }
 
 fn main() {
-    harness_main(Spec { prop: "C02", gen, exec, nontrivial, hang_secs: 20,
+    harness_main(Spec { prop: "C02", gen, exec, nontrivial, hang_secs: 60,
         rule: "exhaustive: every shape (rank<=4 len<=3 quick / len<=4 thorough; rank 5 len<=2 / <=3) + zero-length axes in every position x every flat index 0..len+1 x every coordinate vector of the box enlarged by one per axis, wrong-length vectors, far-out values; + seeded random shapes rank<=5 len<=6. Big shapes (lib big_shapes: axis lengths 7..17, element counts up to 4900; every axis length 7..17 in leading/inner/trailing position of rank 1..3; power-of-two axis lengths 8..2048 in non-leading positions; rank 5; seeded random rank<=5 len<=20 (thorough <=40)): every flat index 0..len+1, every in-range coordinate vector and the one-off border (one component = its axis length, the others in range; the all-equal corner). slice / indices_at: every shape rank<=4 len<=3 (<=4 thorough) + an axis of length 5 + rank 0 and zero-length axes x every range 0<=start,end<=len+1 (arrays of <=12 elements; larger: every start x windows 0..shape[0]+2 and the ends len-1,len,len+1,start-1) x every index list of length<=3 over 0..=shape[0], reversed/doubled full lists, far-out values; + seeded random rank<=5 len<=6; big shapes: a grid of starts x windows around 0,1,2,shape[0]-1..+1,row size,middle,end and full/reversed/doubled/strided/random index lists. EVERY case is executed on the plain Array<i64> receiver (the compared answer), a second time, on Ok(array) through the Result-receiver impl (methods; the operators have none), and on the u8 / i8 / bool / f64 (tag 0 = -0.0, bit-wise) images (arrays <= 300 elements: also u16, i32, f32, usize, String, all on both receivers); any divergence fails the case. PART 2: hidden state - groups of shapes that collide under weak polynomial hashes (multipliers 31..257, any seed, across ranks), 8-/16-bit packed axis lengths and order-/grouping-blind fingerprints are probed with every operation interleaved round-robin (both orders), colliding coordinate vectors / ranges / index lists and permutations on one array, and EVERY case re-runs the previous case after its own first call and demands the previous answer (A-B-A); exact values - narrowing images c+2^8, c+2^16, c+2^32, c+3*2^32 of every coordinate component, flat position, range end and index-list entry, each failing call directly followed by the valid one; exact lengths - every axis length 1..300 in trailing ([2,d]), inner ([3,d,2]) and leading ([d,2]) position with every flat position (thorough: to 1000 and sampled to 5000, [5,d], [2,2,d]), primes and 31/37/49/1000/1001 in rank 1..3; ranks 6..8 (full enlarged box on 2^6, 1-2-1-2-1-2-1, ...); huge shapes (16 384..196 611 elements, axes of 65 537 / 70 000, rank 14) with sampled positions (first/last 40, every multiple of 4096 and of every stride +-1, seeded random) answered by the model directly (its index model is linear), slice / indices_at there only where the quadratic model is affordable. distinct = distinct case lines; non-trivial = array with >=2 axes longer than 1" });
 }
